@@ -123,3 +123,180 @@ def _argnames(A):
 
 
 CONTRACTS = [ParseTypeNode(), ParseNamedTypeNodeGhost(), GetVariableNames()]
+
+
+# ------------------------------------------------------------------------------------------ optional arguments
+ANN = Rec("VarAnnotation", lambda self: OneOf(Cls(ast.Name, id=Str), Cls(ast.Subscript, value=Cls(ast.Name, id=Str), slice=OneOf(self, Cls(ast.Tuple))),
+                                              Cls(ast.Subscript, value=Cls(ast.Attribute), slice=Any)))
+
+
+def top_level_optional(a):
+    return z3.And(GQ.is_cls(a, V.REG.info(ast.Subscript)), GQ.is_cls(V.attr_of(a, ast.Subscript, "value"), V.REG.info(ast.Name)),
+                  V.attr_of(V.attr_of(a, ast.Subscript, "value"), ast.Name, "id") == S(K.OPTIONAL))
+
+
+class IsNullable(Contract):
+    """statement: `method arguments arrive ... as the declared variables`: an argument may be omitted (UNSET default) exactly
+    when its declared variable type is nullable, i.e. when the annotation is Optional[...] at its TOP level (an Optional
+    further inside - list items - does not make the argument itself optional)"""
+    props = ("C03",)
+    target = "ariadne_codegen.client_generators.arguments:ArgumentsGenerator._is_nullable"
+    use_at_calls = False
+
+    def setup(self, E):
+        return [self_obj(AR.ArgumentsGenerator, {}), E.sym("annotation", ANN)], {}
+
+    def ensures(self, A, res):
+        return {"optional-iff-the-annotation-is-Optional-at-top-level": V.vb(res) == top_level_optional(A.annotation)}
+
+    def replay_custom(self, inputs):
+        return dict(inputs={k: str(v)[:200] for k, v in inputs.items()}, failed=[], pre_ok=True, outcome=None, error=None,
+                    undetermined=["replayed end to end by contracts.e2e_variables (required variables cannot be omitted)"])
+
+
+class ProcessOptionalArgAnnotation(Contract):
+    """an omittable argument is annotated Union[<its annotation>, UnsetType] - nothing else changes"""
+    props = ("C03",)
+    target = "ariadne_codegen.client_generators.arguments:ArgumentsGenerator._process_optional_arg_annotation"
+    use_at_calls = False
+
+    def setup(self, E):
+        return [self_obj(AR.ArgumentsGenerator, {}), E.sym("annotation", ANN)], {}
+
+    def ensures(self, A, res):
+        expected = sub(name_(K.UNION), mk(ast.Tuple, elts=lst(SV(A.annotation), name_(K.UNSET_TYPE_NAME))))
+        return {"union-of-the-annotation-and-UnsetType": res == expected}
+
+    replay_custom = IsNullable.replay_custom
+
+
+CONTRACTS += [IsNullable(), ProcessOptionalArgAnnotation()]
+
+
+# ------------------------------------------------------------------------------------------ signature + variables dict
+# ArgumentsGenerator.generate, for every list of variable definitions (loop invariants in suffix form):
+#   variables dict:  keys = the ORIGINAL GraphQL names, in order; values = the dict value of the mapped Python name
+#   signature:       self, the required (non-null) variables in order, then the nullable ones in order, each nullable one
+#                    annotated Union[<annotation>, UnsetType] with default UNSET, **kwargs: Any last
+if G.VariableNode not in V.REG.by_class if hasattr(V.REG, "by_class") else True:
+    try:
+        V.REG.register(G.VariableNode, ["name"])
+    except Exception:       # noqa: already registered by another contract module
+        pass
+V.REG.register(G.VariableDefinitionNode, ["variable", "type"],
+               build=lambda variable=None, type=None: G.VariableDefinitionNode(variable=variable or G.VariableNode(name=G.NameNode(value="v")),
+                                                                                type=type or G.NamedTypeNode(name=G.NameNode(value="Int"))))
+VAR_DEF = Cls(G.VariableDefinitionNode, variable=Cls(G.VariableNode, name=GQ.NAME_NODE), type=TYPE_NODE)
+PYNAME = z3.Function("python_name_of_variable", V.Val, V.Val, V.Val)       # (graphql name, snake-casing flag) -> python name
+DICT_VALUE = z3.Function("variables_dict_value", V.Val, V.Val, V.Val)       # (python name, used custom scalar) -> expression
+
+
+class _ProcessNameStub(Contract):
+    """assumed here (proved under C18): process_name is a function of the name and the flags"""
+    props = ("C03",)
+    assumed = True
+    target = "ariadne_codegen.utils:process_name"
+
+    def setup(self, E):
+        return [], dict(name=E.sym("name", GQ.NAME), convert_to_snake_case=E.sym_bool("convert_to_snake_case"), plugin_manager=None, node=None)
+
+    def result_term(self, A):
+        return PYNAME(A.name, A.convert_to_snake_case)
+
+    def ensures(self, A, res):
+        return {"function-of-name-and-flags": res == self.result_term(A)}
+
+
+class _GetDictValueStub(Contract):
+    """assumed here (proved under C07 with finding F05): the dict value is a function of the Python name and the scalar"""
+    props = ("C03",)
+    assumed = True
+    target = "ariadne_codegen.client_generators.arguments:ArgumentsGenerator._get_dict_value"
+
+    def setup(self, E):
+        return [self_obj(AR.ArgumentsGenerator, {}), E.sym("name", Str), E.sym("used_custom_scalar", Opt(Str))], {}
+
+    def result_term(self, A):
+        return DICT_VALUE(A.name, A.used_custom_scalar)
+
+    def ensures(self, A, res):
+        return {"function-of-name-and-scalar": res == self.result_term(A)}
+
+
+def _vd_org(vd):
+    return V.attr_of(V.attr_of(V.attr_of(vd, G.VariableDefinitionNode, "variable"), G.VariableNode, "name"), G.NameNode, "value")
+
+
+def _vd_ann(vd):
+    return img_var(V.attr_of(vd, G.VariableDefinitionNode, "type"), z3.BoolVal(True))
+
+
+def _arg(name, ann):
+    return mk(ast.arg, arg=name, annotation=ann)
+
+
+def _union_unset(a):
+    return sub(name_(K.UNION), mk(ast.Tuple, elts=lst(SV(a), name_(K.UNSET_TYPE_NAME))))
+
+
+_PS1 = (V.Val,)
+REQ = SpecMap("required_args", lambda vd, snake: _arg(PYNAME(_vd_org(vd), snake), _vd_ann(vd)),
+              keep_fn=lambda vd, snake: z3.Not(top_level_optional(_vd_ann(vd))), param_sorts=_PS1)
+OPTS = SpecMap("optional_args", lambda vd, snake: _arg(PYNAME(_vd_org(vd), snake), _union_unset(_vd_ann(vd))),
+               keep_fn=lambda vd, snake: top_level_optional(_vd_ann(vd)), param_sorts=_PS1)
+KEYS = SpecMap("variables_dict_keys", lambda vd: mk(ast.Constant, value=_vd_org(vd)))
+VALS = SpecMap("variables_dict_values", lambda vd, snake: DICT_VALUE(PYNAME(_vd_org(vd), snake), scalar_var(V.attr_of(vd, G.VariableDefinitionNode, "type"))),
+               param_sorts=_PS1)
+UNSETS = SpecMap("unset_defaults", lambda a: name_(K.UNSET_NAME))
+
+
+class GenerateArguments(Contract):
+    props = ("C03",)
+    target = "ariadne_codegen.client_generators.arguments:ArgumentsGenerator.generate"
+    use_at_calls = False
+    frame_args = False
+    trusted = ["process_name / _get_dict_value: functions of their arguments (assumed here; their own contracts are C18 / C07)"]
+
+    def setup(self, E):
+        snake = E.sym_bool("convert_to_snake_case")
+        self_ = self_obj(AR.ArgumentsGenerator, dict(convert_to_snake_case=snake, plugin_manager=None))
+        return [self_, E.sym("variable_definitions", TupleOf(VAR_DEF, name="variable_definitions"))], {}
+
+    def _snake(self, A):
+        return A["convert_to_snake_case"] if "convert_to_snake_case" in A else V.VBool(z3.Bool("convert_to_snake_case"))
+
+    @property
+    def loops(self):
+        snake = V.VBool(z3.Bool("convert_to_snake_case"))
+
+        def inv(rest, xs, st, I, env):
+            parts = []
+            for key, smap, params, init in (("required_args", REQ, (snake,), V.VCons(_arg(S("self"), V.VNone), V.VNil)),
+                                            ("optional_args", OPTS, (snake,), None), ("dict_.keys", KEYS, (), None),
+                                            ("dict_.values", VALS, (snake,), None)):
+                cur = V.vl(st[key]) if key in st else (init if init is not None else V.VNil)
+                parts.append(append_map_inv(cur, rest, xs, smap, params=params, init=init))
+            return z3.And(*parts)
+        return {"ArgumentsGenerator.generate": inv}
+
+    def ensures(self, A, res):
+        snake = self._snake(A)
+        vds = V.vt(A.variable_definitions)
+        p = A.get("__path__")
+        args_spec = V.vconcat(V.VCons(_arg(S("self"), V.VNone), REQ(vds, snake)), OPTS(vds, snake))
+        defaults = UNSETS.apply(p, OPTS(vds, snake)) if p is not None else UNSETS(OPTS(vds, snake))
+        arguments, dict_ = V.nth(V.vt(res), 0), V.nth(V.vt(res), 1)
+        return {
+            "variables-dict-keyed-by-the-original-names-in-order": V.vl(V.attr_of(dict_, ast.Dict, "keys")) == KEYS(vds),
+            "variables-dict-values-are-the-mapped-python-names": V.vl(V.attr_of(dict_, ast.Dict, "values")) == VALS(vds, snake),
+            "signature: self, required variables, then nullable ones as Union[.., UnsetType]": V.vl(V.attr_of(arguments, ast.arguments, "args")) == args_spec,
+            "every-nullable-variable-defaults-to-UNSET/required-ones-have-no-default": V.vl(V.attr_of(arguments, ast.arguments, "defaults")) == defaults,
+            "kwargs-last": V.attr_of(arguments, ast.arguments, "kwarg") == _arg(S(K.KWARGS_NAMES), name_(K.ANY)),
+        }
+
+    def replay_custom(self, inputs):
+        return dict(inputs={k: str(v)[:200] for k, v in inputs.items()}, failed=[], pre_ok=True, outcome=None, error=None,
+                    undetermined=["replayed end to end by contracts.e2e_variables"])
+
+
+CONTRACTS += [GenerateArguments(), _ProcessNameStub(), _GetDictValueStub()]
